@@ -68,11 +68,19 @@ def impl(case):
     buf = io.StringIO()
     try:
         with redirect_stdout(buf):
+            from harness import warm
             if op == "aggregate":
                 keys = [x[0] for x in by]
-                out = a.group_by(*keys).aggregate(n=len, ids=lambda x: [it["lid"] for it in x])
+                g = a.group_by(*keys)
+                if warm.ENABLED:
+                    # the grouped list has been aggregated before and its items were then edited in place
+                    warm.lod_through_history(g, extra=lambda l: l.aggregate(n=len, first=lambda x: x[0]["lid"]), keys=keys)
+                out = g.aggregate(n=len, ids=lambda x: [it["lid"] for it in x])
                 res["out"] = [[k for k in [dict(it)]][0] for it in out]
             else:
+                if warm.ENABLED:
+                    warm.lod_through_history(a, keys=[x[0] for x in by])
+                    warm.lod_through_history(b, keys=[x[1] for x in by])
                 out = getattr(a, op + "_join")(b, *byarg)
                 res["out"] = [[[k, v] for k, v in it.items()] for it in out]
                 res["ids"] = [id(it) for it in out]
